@@ -8,3 +8,4 @@ import DesyncModel.Tables.Claim
 import DesyncModel.Tables.Push
 import DesyncModel.Tables.Wake
 import DesyncModel.Tables.Pool
+import DesyncModel.Tables.FutureDrop
